@@ -173,3 +173,123 @@ SPEC_C10_MACHINE = MachineSpec("C10", T.p_C10, P_PLANS.with_(w_ops=dict(plan_app
                                                                w_act=dict(plan_append=8, plan_removeAt=3, plan_clear=2, succeed=6)),
                                cfgs_plans, lambda t: 60 if t == "quick" else 300,
                                lambda ls, c: has(ls, lambda l: (l.kind == "did" and l.act[0] == "plan.append" and l.res == "full") or (l.kind == "api" and l.op == "plan.removeAt")))
+
+# ---------------------------------------------------------------------------------------------- unit-level
+from . import unitcheck
+
+def check_C13(run):
+    rng = run.rng; q = run.tier == "quick"
+    lines = units.gen_bitstream(rng, 300 if q else 3000, True) + units.gen_bitwidth(rng, 200 if q else 5000)
+    unitcheck.run(run, lines)
+    return dict(rule="operation lists for StreamBufferT/BitWriteStreamT/BitReadStreamT over every (offset mod 8, width) pair x 4 value patterns plus random "
+                     "field sequences for 25 capacities up to 255 bits, and bitWidth() on powers of two +-1, 1..259 and random 32-bit values; a case is one "
+                     "input line; distinct non-trivial = distinct model result blocks with more than three result lines",
+                explanation="")
+
+def check_C20(run):
+    rng = run.rng; q = run.tier == "quick"
+    lines = units.gen_bitarray(rng, 300 if q else 3000) + units.gen_arrays(rng, 300 if q else 3000)
+    unitcheck.run(run, lines)
+    return dict(rule="operation lists for BitArrayT, StaticArrayT<int>, DynamicArrayT<int> over 25 capacities (1..255; indices aimed at multiples of 8, "
+                     "set-all then clear-each for every capacity, and-assign with sparse masks, fill to capacity 255); distinct non-trivial = distinct model "
+                     "result blocks with more than three result lines", explanation="")
+
+DP_QUICK = list(range(1, 18)) + [31, 32, 33, 63, 64, 65]
+DP_MID = [127, 128, 129]
+DP_BIG = [254, 255]
+
+def oracle_dp(n, head, out):
+    L = out.splitlines()
+    if not L or not L[0].startswith("n=%d head=%d rootId=255 construct:" % (n, head)): return "header line: %s" % (L[:1],)
+    if " enter=0/0" not in L[0] or not L[0].endswith("active=0"): return "construction did not enter the first declared state: " + L[0]
+    if len(L) != n + 1: return "expected %d probe lines, got %d" % (n, len(L) - 1)
+    prev = 0
+    for k in range(n):
+        t = L[k + 1].split(" ")
+        exp = ["k=%d" % k, "exitGuard=%d/%d" % (prev, prev), "entryGuard=%d/%d" % (k, k)]
+        exp += ["reenter=%d/%d" % (k, k)] if prev == k else ["exit=%d/%d" % (prev, prev), "enter=%d/%d" % (k, k)]
+        exp += ["%s=%d/%d" % (m, k, k) for m in ("preUpdate", "update", "postUpdate", "preReact", "react", "postReact", "query")]
+        exp += ["sid=%d" % k, "self=1", "active=%d" % k, "isActive=11"]
+        if t != exp: return "changeTo(%d) with %d states: got [%s], expected [%s]" % (k, n, L[k + 1], " ".join(exp))
+        prev = k
+    return None
+
+def check_C14(run):
+    tier = run.tier
+    ns = list(DP_QUICK) if tier == "quick" else list(range(1, 256))
+    src = os.path.join(common.HARNESS, "dispatch_harness.cpp")
+    jobs = [(n, h, v) for n in ns for h in (1, 0) for v in ("include", "development")]
+    if tier == "quick":
+        jobs += [(n, 1, "include") for n in DP_MID] + [(255, 1, "development"), (254, 0, "include")]
+    def one(j):
+        n, h, v = j
+        b, log = common.build_binary(src, ["-DH_N=%d" % n, "-DH_HEAD=%d" % h], v)
+        if b is None: return j, None, log, None
+        rc, out, err = common.run_proc([b], "", timeout=60)
+        mrc, mout, merr = common.run_proc([common.model_runner(), "dp", str(n), str(h)], "", timeout=120)
+        return j, (rc, out, err), None, (mrc, mout, merr)
+    # big machines need about 1 GB of compiler memory each: bound the parallelism by size
+    small = [j for j in jobs if j[0] <= 130]; big = [j for j in jobs if j[0] > 130]
+    res = common.pmap(one, small) + common.pmap(one, big, jobs=6)
+    for j, impl, log, model in res:
+        n, h, v = j; cfgname = "dispatch_harness n=%d head=%d %s" % (n, h, v)
+        run.configs.append(cfgname); run.evaluations += n
+        if impl is None:
+            run.divergences.append(dict(what="the dispatch harness does not compile against the working tree", reason=log[-3000:], cfg=cfgname, variant=v)); continue
+        rc, out, err = impl; mrc, mout, merr = model
+        run.traces_validated += 1; run.dist["n<=17" if n <= 17 else "n<=65" if n <= 65 else "n<=129" if n <= 129 else "n>=130"] += 1
+        script = "dispatch_harness -DH_N=%d -DH_HEAD=%d (%s header): changeTo(k), update(), react(), query() for every k" % (n, h, v)
+        if rc != 0:
+            run.violations.append(dict(reason="implementation run failed (exit status %s): %s" % (rc, err[-800:]), script=script, cfg=cfgname, variant=v)); continue
+        rej = oracle_dp(n, h, out)
+        if rej:
+            run.violations.append(dict(reason="dispatch reaches the wrong state: " + rej, script=script, cfg=cfgname, variant=v, impl=out[-2000:], monitor=True)); continue
+        if mrc != 0 or out != mout:
+            il = out.splitlines(); ml = mout.splitlines()
+            i = next((x for x in range(min(len(il), len(ml))) if il[x] != ml[x]), min(len(il), len(ml)))
+            run.divergences.append(dict(what="dispatch trace comparison", script=script, cfg=cfgname, variant=v,
+                                        reason="line %d: implementation [%s] model [%s] %s" % (i, il[i] if i < len(il) else "<end>", ml[i] if i < len(ml) else "<end>", merr[-200:])))
+        for l in mout.splitlines()[1:]:
+            run.distinct.add((n, h, l))
+        if len(run.samples) < 2 and n in (5, 33): run.samples.append(dict(cfg=cfgname, trace=mout.splitlines()[:6]))
+    run.violations.sort(key=lambda v: len(v.get("impl", "")))
+    return dict(rule="one machine per state count N (quick: 1..17, 31..33, 63..65 with and without head, both header variants, plus 127..129, 254, 255 once; thorough: every N in 1..255 "
+                     "x head x variant); for every k < N: immediateChangeTo(k), update(), react(), query() - all twelve callback kinds; an evaluation is one (N, k) probe; distinct non-trivial = distinct (N, head, probe line)",
+                explanation="", exhaustive=(tier != "quick"))
+
+def check_C10(run):
+    rng = run.rng; q = run.tier == "quick"
+    lines = units.gen_tasklist(rng, 400 if q else 4000)
+    unitcheck.run(run, lines)
+    engine.run_machine(run, SPEC_C10_MACHINE)
+    return dict(rule="(a) TaskListT<void, C> operation lists (emplace/remove/clear; styles: mixed, fill-drain in random order, full-cycle) for C in {1,2,3,4,5,8,255}, "
+                     "slot indices and slot contents compared; (b) generated machine scripts with plans on (capacities 1..4) whose plan is edited through plan()/control.plan(), "
+                     "consumed by firing and cleared by plan outcomes, compared with the model under the C10 projection; non-trivial = hits a full plan or removes through an iterator",
+                explanation="")
+
+# ---------------------------------------------------------------------------------------------- dispatch
+LEVEL_TEXT = {
+    "proof": "Coq theorems over the executable model for all inputs/histories/sizes (kernel-checked, axiom-free), tied to /repo's working tree by a correspondence "
+             "run of the extracted model against the real classes on generated inputs; a property monitor / abstract oracle over implementation results turns a "
+             "broken correspondence into a concrete failing input",
+}
+
+def machine_check(pid):
+    def f(run):
+        spec = SPECS[pid]
+        engine.run_machine(run, spec)
+        return dict(rule="generated scripts (callback table + API history, profile '%s') on the configurations listed; every script runs on the implementation "
+                         "(both header variants) and on the extracted model, traces compared under the %s projection and the %s monitor applied to the implementation's "
+                         "trace; distinct non-trivial = distinct projected model traces that contain the events the property is about" % (pid, pid, pid), explanation="")
+    return f
+
+CHECKS = {"C10": check_C10, "C13": check_C13, "C14": check_C14, "C20": check_C20}
+for _pid in SPECS: CHECKS[_pid] = machine_check(_pid)
+
+def run_check(pid, tier, seed):
+    run = Run(pid, tier, seed)
+    run.proof = proofs.check_property(pid)
+    info = CHECKS[pid](run)
+    run.extra.update({k: v for k, v in info.items() if k not in ("rule", "explanation")})
+    level = info.get("level", "proof")
+    return engine.finish(run, level, LEVEL_TEXT.get(level, ""), info["rule"], info.get("explanation", ""))
